@@ -1489,6 +1489,82 @@ func (g *gen) valueStreamCase(o *vcoq.Out, equiv *eqv, ro fro, nBefore, nAfter i
 			"before": jb, "read": ro.js(), "after": ja, "after_codes": codes, "stream": js, "final_get": jsMsg(final)}})
 }
 
+// pullIDCase: PullID(id) with backpressure; the stream ends when the item is removed
+func (g *gen) pullIDCase(o *vcoq.Out, equiv *eqv, ro fro, nBefore, nAfter int, tags []string) {
+	w := g.newWorld(equiv)
+	var before, after []*fop
+	for i := 0; i < nBefore; i++ {
+		op := g.writeOp()
+		w.exec(op)
+		before = append(before, op)
+	}
+	id := idAlphabet[g.r.Intn(3)]
+	ctx, cancel := context.WithCancel(context.Background())
+	defer cancel()
+	ch := w.coll.PullID(ctx, id, ro.opts(true)...)
+	var mu sync.Mutex
+	var got []ovchange
+	closed := false
+	done := make(chan struct{})
+	go func() {
+		defer close(done)
+		for c := range ch {
+			m := fromProto(c.Value)
+			mu.Lock()
+			got = append(got, ovchange{*m, c.ChangeTime.UnixNano(), c.SeedValue, c.LastSeedValue})
+			mu.Unlock()
+		}
+		mu.Lock()
+		closed = ctx.Err() == nil // closed by the library (item removed), not by our cancel
+		mu.Unlock()
+	}()
+	for i := 0; i < nAfter; i++ {
+		op := g.writeOp()
+		if op.id != "" && g.r.Chance(50) {
+			op.id = id // concentrate on the subscribed item
+		}
+		w.exec(op)
+		after = append(after, op)
+	}
+	// barrier on another id (part of the modelled history: the subscription may even open after it),
+	// then wait until the consumer's log is stable
+	for _, v := range []int64{1000, 1001} {
+		op := &fop{kind: 2, id: barrierID, msg: fmsg{v, v, v}, o: &fwo{create: true, allWritable: true}}
+		op.cands = g.cands(false)
+		w.exec(op)
+		after = append(after, op)
+	}
+	last, quiet := -1, 0
+	for quiet < 4 {
+		time.Sleep(time.Millisecond)
+		mu.Lock()
+		n := len(got)
+		mu.Unlock()
+		if n == last {
+			quiet++
+		} else {
+			last, quiet = n, 0
+		}
+	}
+	mu.Lock()
+	stream := append([]ovchange(nil), got...)
+	cl := closed
+	mu.Unlock()
+	cancel()
+	<-done
+	it := make([]string, len(stream))
+	js := []any{}
+	for i, c := range stream {
+		it[i] = vcoq.App("mkOV", coqMsg(c.v), vcoq.Z(c.t), vcoq.Bool(c.seed), vcoq.Bool(c.last))
+		js = append(js, map[string]any{"value": jsMsg(&c.v), "time": c.t, "seed": c.seed, "last_seed": c.last})
+	}
+	coq := vcoq.App("CaseCPullID", optFldsW(g), g.idf.coq(), equiv.coq(), coqOps(before), ro.coq(), vcoq.Str(id), coqOps(after), vcoq.List(it), vcoq.Bool(cl))
+	tags = append(tags, "pull-id", fmt.Sprintf("closed=%v", cl))
+	o.Add(vcoq.Case{Coq: coq, Key: coq, NonTrivial: len(stream) >= 2 || cl, Tags: tags,
+		JSON: map[string]any{"kind": "collection-pull-id", "id": id, "writable": jsFlds(g.writable, g.hasW), "id_interceptor": g.idf.coq(), "equivalence": equiv.coq(),
+			"before": jsOps(before), "read": ro.js(), "after": jsOps(after), "stream": js, "closed_by_removal": cl}})
+}
+
 func (g *gen) equiv() *eqv {
 	switch g.r.Intn(6) {
 	case 0:
@@ -1538,6 +1614,10 @@ func genC04(o *vcoq.Out, r *vcoq.Rand, tier string) error {
 			tags = append(tags, "include")
 		}
 		tags = append(tags, "collection")
+		if i%6 == 1 {
+			g.pullIDCase(o, eq, ro, nb, r.Range(0, 10), tags)
+			continue
+		}
 		g.streamCase(o, eq, ro, nb, r.Range(0, 10), tags)
 	}
 	return nil
